@@ -253,8 +253,11 @@ namespace detail
 	{
 		GLM_STATIC_ASSERT(std::numeric_limits<genIType>::is_integer, "'bitfieldRotateRight' accepts only integer values");
 
-		int const BitSize = static_cast<genIType>(sizeof(genIType) * 8);
-		return (In << static_cast<genIType>(Shift)) | (In >> static_cast<genIType>((BitSize - Shift) & (BitSize - 1)));
+		// shifts are done on the unsigned representation: shifting negative signed values is undefined / smears the sign
+		typedef typename detail::make_unsigned<genIType>::type U;
+		int const BitSize = static_cast<int>(sizeof(genIType) * 8);
+		U const Bits = static_cast<U>(In);
+		return static_cast<genIType>((Bits << Shift) | (Bits >> ((BitSize - Shift) & (BitSize - 1))));
 	}
 
 	template<length_t L, typename T, qualifier Q>
@@ -262,8 +265,10 @@ namespace detail
 	{
 		GLM_STATIC_ASSERT(std::numeric_limits<T>::is_integer, "'bitfieldRotateRight' accepts only integer values");
 
+		typedef typename detail::make_unsigned<T>::type U;
 		int const BitSize = static_cast<int>(sizeof(T) * 8);
-		return (In << static_cast<T>(Shift)) | (In >> static_cast<T>((BitSize - Shift) & (BitSize - 1)));
+		vec<L, U, Q> const Bits(In);
+		return vec<L, T, Q>((Bits << static_cast<U>(Shift)) | (Bits >> static_cast<U>((BitSize - Shift) & (BitSize - 1))));
 	}
 
 	template<typename genIType>
@@ -271,8 +276,11 @@ namespace detail
 	{
 		GLM_STATIC_ASSERT(std::numeric_limits<genIType>::is_integer, "'bitfieldRotateLeft' accepts only integer values");
 
-		int const BitSize = static_cast<genIType>(sizeof(genIType) * 8);
-		return (In >> static_cast<genIType>(Shift)) | (In << static_cast<genIType>((BitSize - Shift) & (BitSize - 1)));
+		// shifts are done on the unsigned representation: shifting negative signed values is undefined / smears the sign
+		typedef typename detail::make_unsigned<genIType>::type U;
+		int const BitSize = static_cast<int>(sizeof(genIType) * 8);
+		U const Bits = static_cast<U>(In);
+		return static_cast<genIType>((Bits >> Shift) | (Bits << ((BitSize - Shift) & (BitSize - 1))));
 	}
 
 	template<length_t L, typename T, qualifier Q>
@@ -280,8 +288,10 @@ namespace detail
 	{
 		GLM_STATIC_ASSERT(std::numeric_limits<T>::is_integer, "'bitfieldRotateLeft' accepts only integer values");
 
+		typedef typename detail::make_unsigned<T>::type U;
 		int const BitSize = static_cast<int>(sizeof(T) * 8);
-		return (In >> static_cast<T>(Shift)) | (In << static_cast<T>((BitSize - Shift) & (BitSize - 1)));
+		vec<L, U, Q> const Bits(In);
+		return vec<L, T, Q>((Bits >> static_cast<U>(Shift)) | (Bits << static_cast<U>((BitSize - Shift) & (BitSize - 1))));
 	}
 
 	template<typename genIUType>
